@@ -85,7 +85,53 @@ def correspond(ctx):
         if st.get('child_failures'):
             c['ok'] = False
             c['errors'].append('%d scenario processes died' % st['child_failures'])
-    return [c]
+    return [c, _fault_stage(ctx)]
+
+
+def _fault_stage(ctx):
+    """Write faults that RETURN AN ERROR (hook H2b-c05, db.VerifC05FaultGate), monitor only: for a plain extension and
+    a write whose error the code checks (hash index, height index, state commit, recorded head) the error must surface
+    as AddBlockFailed with the head unmoved, a restart must restore exactly the old chain and delivering the block
+    again must succeed; for every fault: no panic, restart works. Errors the code ignores and faults inside a reorg
+    are recorded in the statistics only (store errors are outside the property's quantifier)."""
+    res = dict(name='write-faults', ok=True, ops=0, mismatches=0, unmodelled=0, errors=[], violations=[], samples=[],
+               distinct_nontrivial=0)
+    hook = os.path.join(ctx.repo, 'src', 'middleware', 'db', 'verif_c05_hook.go')
+    if not (os.path.exists(hook) and 'VerifC05FaultGate' in open(hook).read()):
+        res['stats'] = dict(skipped='repository under test has no write-fault gate (verif hook H2b-c05); stage not run')
+        return res
+    binp, log = vlib.go_build(ctx, vlib.HARNESS, './cmd/c05', 'c05fault', tags='verif c05fault')
+    if not binp:
+        res['ok'] = False
+        res['errors'].append('fault harness build failed: ' + log[-1200:])
+        return res
+    cwd = ctx.scratch('c05-fault')
+    ops, obs = os.path.join(ctx.work, 'c05f.ops'), os.path.join(ctx.work, 'c05f.obs')
+    n = 400 if ctx.thorough() else 40
+    rc, so, se = vlib.run([binp, 'ops=' + ops, 'obs=' + obs, 'tier=' + ctx.tier, 'mode=fault', 'n=%d' % n, 'workers=14'], cwd=cwd,
+                          env=dict(VERIF_SEED=str(ctx.seed), GOMEMLIMIT='8GiB'), timeout=1200)
+    import shutil
+    shutil.rmtree(cwd, ignore_errors=True)
+    st = None
+    for line in so.split('\n'):
+        if line.startswith('STATS '):
+            try:
+                st = json.loads(line[6:])
+            except Exception:
+                pass
+    if rc != 0 or st is None:
+        res['ok'] = False
+        res['errors'].append('fault run failed rc=%d %s' % (rc, (se or so)[-600:]))
+        return res
+    res['ops'] = st.get('ops', 0)
+    res['distinct_nontrivial'] = st.get('kinds', {}).get('addf', 0)
+    res['violations'] = _violations(st, 'write faults')
+    st.pop('violations', None)
+    res['stats'] = st
+    if st.get('child_failures'):
+        res['ok'] = False
+        res['errors'].append('%d fault scenario processes died' % st['child_failures'])
+    return res
 
 
 def search(ctx, hints):
